@@ -606,6 +606,16 @@ class IH5Group(IH5InnerNode):
             if isinstance(prev_val, (IH5Group, IH5Dataset)):
                 raise ValueError("Path exists, in order to replace - delete first!")
 
+        # remember what we will touch in the latest container while preparing the path
+        # (a deletion marker, or the first missing path prefix), to undo it on failure
+        newest = self._files[-1]
+        segs = path.strip("/").split("/")
+        prefixes = ["/" + "/".join(segs[: i + 1]) for i in range(len(segs))]
+        old_marker = next(
+            (p for p in prefixes if p in newest and _node_is_del_mark(newest[p])), None
+        )
+        first_new = next((p for p in prefixes if p not in newest), None)
+
         if path in self._files[-1] and _node_is_del_mark(
             self._get_child_raw(path, self._last_idx)
         ):
@@ -617,9 +627,19 @@ class IH5Group(IH5InnerNode):
             assert path in self._files[-1]
             del self._files[-1][path]
 
-        self._files[-1].create_dataset(  # actually create it, finally
-            path, shape=shape, dtype=dtype, data=data, **kwargs
-        )
+        try:
+            self._files[-1].create_dataset(  # actually create it, finally
+                path, shape=shape, dtype=dtype, data=data, **kwargs
+            )
+        except Exception:
+            # a failed call must not have any effect -> undo the preparations
+            if old_marker is not None:
+                if old_marker in newest:
+                    del newest[old_marker]
+                newest[old_marker] = DEL_VALUE
+            elif first_new is not None and first_new in newest:
+                del newest[first_new]
+            raise
         return IH5Dataset(self._record, path, self._last_idx)
 
     def require_group(self, name: str) -> IH5Group:
